@@ -109,10 +109,12 @@ def natural_scale(base, A):
 
 
 def score_tol(base, A, ref):
+    """1e-8*max(S,|ref|) (1e-6 for MMD) with an absolute floor of 1e-14: an affinity whose entries are themselves rounding
+    noise (cosine distances of parallel vectors, ~1e-17) yields scores that are rounding noise too."""
     S = natural_scale(base, A)
     if base == "mmd":
-        return 1e-6 * max(S, abs(ref))
-    return 1e-8 * max(S, abs(ref))
+        return max(1e-6 * max(S, abs(ref)), 1e-14)
+    return max(1e-8 * max(S, abs(ref)), 1e-14)
 
 
 def mmd_longdouble(P, A, ovo, eps=1e-12):
